@@ -580,7 +580,7 @@ var cmapTmplNew = template.Must(template.New("cmap").Funcs(template.FuncMap{
 	"B": func(x []byte) string {
 		return fmt.Sprintf("<%02x>", x)
 	},
-	"SingleChunks": chunks[Single],
+	"SingleChunks":    chunks[Single],
 	"CodeSpaceChunks": chunks[charcode.Range],
 	"Single": func(s Single) string {
 		return fmt.Sprintf("<%x> %d", s.Code, s.Value)
